@@ -166,7 +166,8 @@ fn vanishing_and_domain<F: PrimeField + FftField, D: EvaluationDomain<F>>(t: &mu
             }
         }
         // fft / ifft for every input length 0..=n (+ longer than the domain for evaluate_over_domain)
-        for len in 0..=(n + 2) {
+        // lengths 0..=n+2, and several domain sizes long (2n+1, 3n+1, 4n+3: folding with the coset offset)
+        for len in (0..=(n + 2)).chain([2 * n + 1, 3 * n + 1, 4 * n + 3]) {
             for _ in 0..6 {
                 let c: Vec<F> = (0..len).map(|_| { let r = rng.next(); if r % 5 == 0 { F::zero() } else { F::from(r >> 3) } }).collect();
                 if len <= n {
@@ -178,7 +179,9 @@ fn vanishing_and_domain<F: PrimeField + FftField, D: EvaluationDomain<F>>(t: &mu
                 }
                 let p = DensePolynomial::from_coefficients_vec(c.clone());
                 let evs = p.evaluate_over_domain_by_ref(dom);
-                t.check(evs.evals.len() == n && (0..n).all(|i| evs.evals[i] == horner(&c, els[i])), || format!("{name}: evaluate_over_domain size {n} offset {h} input {c:?}"));
+                t.check(evs.evals.len() == n && (0..n).all(|i| evs.evals[i] == horner(&c, els[i])), || format!("{name}: evaluate_over_domain_by_ref size {n} offset {h} input {c:?}"));
+                let evv = p.clone().evaluate_over_domain(dom);
+                t.check(evv.evals.len() == n && (0..n).all(|i| evv.evals[i] == horner(&c, els[i])), || format!("{name}: evaluate_over_domain (by value) size {n} offset {h} input {c:?}"));
                 if len <= n {
                     let ip = evs.clone().interpolate();
                     t.check(ip == p, || format!("{name}: interpolate(evaluate_over_domain) size {n} offset {h} input {c:?}"));
